@@ -163,7 +163,7 @@ func drawBytes(rt *rapid.T, label string) []byte {
 }
 
 func TestBinary(t *testing.T) {
-	harness.Rapid(t, 24000, 600000, func(rt *rapid.T, c *harness.Case) {
+	harness.Rapid(t, 40000, 900000, func(rt *rapid.T, c *harness.Case) {
 		data := drawBytes(rt, "data")
 		nbits := int64(len(data)) * 8
 		if len(data) > 0 && rapid.IntRange(0, 7).Draw(rt, "cut") == 0 {
@@ -188,7 +188,8 @@ func TestBinary(t *testing.T) {
 			c.Failf("harness-error", "NewBinaryFromBitReader: %v", err)
 		}
 		var jv any = root
-		if !(a == 0 && b == units && rapid.Bool().Draw(rt, "noslice")) {
+		whole := a == 0 && b == units && rapid.Bool().Draw(rt, "noslice")
+		if !whole {
 			jv = root.JQValueSlice(a, b)
 			if rapid.IntRange(0, 3).Draw(rt, "reslice") == 0 && b > a {
 				// slice of a slice: same buffer, offsets add up
@@ -207,6 +208,12 @@ func TestBinary(t *testing.T) {
 		}
 		buf := &buffer{Data: padded, NBits: nbits}
 		start, ln := int64(a)*int64(unit), int64(b-a)*int64(unit)
+		if whole {
+			// the unsliced binary stands for the whole buffer, also the bits
+			// beyond the last whole unit
+			start, ln = 0, nbits
+			c.Label("unsliced")
+		}
 		// hexdump always prints the range (it forces verbose)
 		nodes := []xnode{{Path: ".", Buf: buf, Start: start, Len: ln, ShowsData: ln > 0, Range: true}}
 		st := renderChecked(c, jv, o, nodes)
@@ -280,7 +287,7 @@ func drawSubPath(rt *rapid.T, top *decode.Value, maxNodes int) []int {
 
 func TestTree(t *testing.T) {
 	buckets := treegen.Buckets(corpusMaxBytes)
-	harness.Rapid(t, 20000, 500000, func(rt *rapid.T, c *harness.Case) {
+	harness.Rapid(t, 32000, 700000, func(rt *rapid.T, c *harness.Case) {
 		var top *decode.Value
 		var src treeSource
 		if len(buckets) == 0 || rapid.IntRange(0, 9).Draw(rt, "source") < 7 {
